@@ -15,7 +15,7 @@ META = {
                    "compared as a set with what uri::Rsync::join accepts (URI byte class, no '/', not '.'/'..', non-empty), "
                    "so the unwrap in iter_uris is discharged and a joined URI is base + one segment. The name check is on "
                    "every decode path (capture-time skip and iteration), thisUpdate ≤ nextUpdate is enforced, len counts "
-                   "exactly the accepted entries, and ManifestHash::verify fails exactly on inequality with the digest.",
+                   "exactly the accepted entries, and ManifestHash::verify fails exactly on inequality with the digest; the rsync path check is decided on the languages of its first round (DotSegments exactly for '.' and '..', EmptySegments exactly for an empty segment that is not the last).",
     "not_decided": ["SHA-256 itself", "decoder completeness for every conforming encoder"],
     "trusted_base": ["bcder decode combinators propagate closure errors",
                      "documented semantics of the std slice / slice-iterator / Option / Result functions the name-language "
